@@ -623,6 +623,10 @@ def sweep() -> list[dict[str, Any]]:
     for kind, text in BABEL:
         for extra in variants:
             add(kind, text, complete=True, extra=extra, both=True)
+    # expressions rooted at template-local bindings; complete by construction.  The
+    # dynamic partials go into PARTIALS (same names and bodies every time).
+    for kind, text in locals_programs(PARTIALS):
+        add(kind, text, complete=True, both=True)
     for kind, tpl in STMTS:
         arrays = ARRAYS if ("{A}" in tpl and "{P}" in tpl) else ["arr"]
         if "{P}" not in tpl:
@@ -637,4 +641,189 @@ def sweep() -> list[dict[str, Any]]:
             for p in ("nosuch", "arr[9]", "h.zz"):
                 add(kind, fill_fixed(tpl, "s", "arr", q=p))
                 add(kind, fill_fixed(tpl, "nl", "mixed", q=p))
+    return out
+
+
+# ---------------------------------------------------------------------------------------
+# template-local bindings: every tag / filter / lambda / template string that takes an
+# expression, with that expression rooted at a name bound *inside the template* (loop
+# variable, assign, capture, macro parameter, argument of an enclosing render / include,
+# with-block binding, tablerow variable), at nesting depth 0-2.  The data is BASE, every
+# path resolves: complete by construction.
+# ---------------------------------------------------------------------------------------
+BASE["rich"] = {"k": 1, "v": "x", "t": True, "list": [1, 2, 3], "key": "k", "n": 2}
+BASE["riches"] = [
+    {"k": 1, "v": "x", "t": True, "list": [1, 2, 3], "key": "k", "n": 2},
+    {"k": 2, "v": "y", "t": False, "list": [4, 5], "key": "n", "n": 1},
+]
+
+# (kind, text, body is a partial?)  {BODY} is where the use goes, L is the bound name
+LOCAL_BINDERS: list[tuple[str, str]] = [
+    ("loop-var", "{% for L in riches %}{BODY}{% endfor %}"),
+    ("assign", "{% assign L = rich %}{BODY}"),
+    ("assign-filtered", "{% assign L = riches | first %}{BODY}"),
+    ("macro-param", "{% macro mm L %}{BODY}{% endmacro %}{% call mm rich %}"),
+    ("macro-kwparam", "{% macro mk a, L: rich %}{BODY}{% endmacro %}{% call mk 1 %}"),
+    ("render-arg", "{% render '{PARTIAL}', L: rich %}"),
+    ("render-with", "{% render '{PARTIAL}' with rich as L %}"),
+    ("render-for", "{% render '{PARTIAL}' for riches as L %}"),
+    ("include-arg", "{% include '{PARTIAL}', L: rich %}"),
+    ("include-for", "{% include '{PARTIAL}' for riches as L %}"),
+    ("with-binding", "{% with L: rich %}{BODY}{% endwith %}"),
+    ("tablerow-var", "{% tablerow L in riches cols: 2 %}{BODY}{% endtablerow %}"),
+    ("loop-over-local", "{% assign rr = riches %}{% for L in rr %}{BODY}{% endfor %}"),
+]
+SCALAR_BINDERS: list[tuple[str, str]] = [
+    ("capture", "{% capture L %}hello{% endcapture %}{BODY}"),
+    ("assign-scalar", "{% assign L = s | upcase %}{BODY}"),
+    ("loop-var-scalar", "{% for L in strs %}{BODY}{% endfor %}"),
+    ("macro-param-scalar", "{% macro ms L %}{BODY}{% endmacro %}{% call ms 'arg' %}"),
+    ("render-arg-scalar", "{% render '{PARTIAL}', L: s %}"),
+    ("with-binding-scalar", "{% with L: h.k %}{BODY}{% endwith %}"),
+]
+# uses of an object-shaped local
+LOCAL_USES: list[tuple[str, str]] = [
+    ("render-with", "{% render 'p_use' with L.v as x %}"),
+    ("render-with-obj", "{% render 'p_glob' with L %}{% render 'p_truthy' with L as x %}"),
+    ("render-with-list", "{% render 'p_for' with L.list as x %}"),
+    ("render-for", "{% render 'p_use' for L.list as x %}"),
+    ("render-kw", "{% render 'p_use', x: L.v %}"),
+    ("render-kw-default", "{% render 'p_default', x: L.k %}"),
+    ("include-with", "{% include 'p_use' with L.v as x %}"),
+    ("include-for", "{% include 'p_use' for L.list as x %}"),
+    ("include-kw", "{% include 'p_use', x: L.v %}"),
+    ("include-dynamic", "{% include pname, x: L.k %}"),
+    ("call-args", "{% macro m2 a, b %}[{{ a }}{{ b }}]{% endmacro %}{% call m2 L.v, b: L.k %}"),
+    ("call-excess", "{% macro m3 a %}[{{ a }}{{ args | join: '-' }}{{ kwargs.z }}]{% endmacro %}{% call m3 L.v, L.k, z: L.n %}"),
+    ("with", "{% with a: L.v, b: L.list %}{{ a }}{{ b | size }}{% endwith %}"),
+    ("cycle", "{% cycle L.v, L.k %}{% cycle L.v, L.k %}"),
+    ("cycle-group", "{% cycle 'g': L.v, 'z' %}"),
+    ("case", "{% case L.k %}{% when 1 %}one{% when 2 %}two{% else %}o{% endcase %}"),
+    ("when", "{% case 1 %}{% when L.k %}k{% when L.n, 7 %}n{% else %}o{% endcase %}"),
+    ("for-in", "{% for y in L.list %}{{ y }}{% else %}-{% endfor %}"),
+    ("for-limit-offset", "{% for y in L.list limit: L.n offset: L.k %}{{ y }}{% endfor %}"),
+    ("for-range", "{% for y in (L.k..L.n) %}{{ y }}{% endfor %}"),
+    ("for-reversed", "{% for y in L.list reversed %}{{ y }}{{ forloop.index }}{% endfor %}"),
+    ("tablerow", "{% tablerow y in L.list cols: L.n limit: L.n %}{{ y }}{% endtablerow %}"),
+    ("echo", "{% echo L.v %}{% echo L.list | join: ',' %}"),
+    ("output", "{{ L.v }}{{ L.k }}{{ L.list.first }}{{ L.list[1] }}{{ L.list.size }}"),
+    ("assign", "{% assign z2 = L.v | append: L.k %}{{ z2 }}"),
+    ("capture", "{% capture c2 %}{{ L.v }}-{{ L.k }}{% endcapture %}{{ c2 }}"),
+    ("filter-arg", "{{ s | append: L.v }}{{ L.list | join: L.v }}{{ n | plus: L.k }}"),
+    ("filter-arg-kw", "{{ L.t | default: L.v, allow_false: L.t }}{{ nl | default: L.k }}"),
+    ("filter-slice", "{{ s | slice: L.k, L.n }}{{ s | truncate: L.n, L.v }}"),
+    ("filter-where", "{{ objs | where: 'k', L.k | size }}{{ objs | find: 'v', L.v | size }}"),
+    ("lambda-body", "{{ objs | where: i => i.k == L.k | size }}"),
+    ("lambda-map", "{{ objs | map: i => L.v | join: ',' }}"),
+    ("lambda-find", "{{ L.list | find: i => i > L.k }}{{ L.list | has: i => i == L.n }}"),
+    ("lambda-sort", "{{ riches | sort: i => i.k | map: 'v' | join: L.v }}"),
+    ("template-string", "{{ \"a${L.v}b${L.k | plus: 1}\" }}"),
+    ("template-string-arg", "{{ s | append: '-${L.v}' }}"),
+    ("translate-tag", "{% translate who: L.v, count: L.k %}Hi %(who)s{% plural %}His %(who)s{% endtranslate %}"),
+    ("translate-filter", "{{ 'Hi %(w)s' | t: w: L.v }}"),
+    ("ternary", "{{ L.v if L.t else L.k }}{{ 'a' if L.k == 1 }}"),
+    ("if", "{% if L.k == 1 and L.list contains 2 %}y{% elsif L.t or L.n < 2 %}z{% else %}n{% endif %}"),
+    ("unless", "{% unless L.t %}u{% else %}v{% endunless %}"),
+    ("liquid-tag", "{% liquid\necho L.v\nrender 'p_use', x: L.k\nassign q2 = L.n\necho q2 %}"),
+    ("index-by-local", "{{ arr[L.k] }}{{ h[L.key] }}{{ objs[L.k].v }}"),
+    ("array-literal", "{{ L.v, L.k | join: '+' }}{% for y in L.v, L.k %}{{ y }}{% endfor %}"),
+    ("babel", "{{ L.k | currency }}{{ L.n | unit: 'length-meter', length: L.v | default: 'x' }}"),
+]
+SCALAR_USES: list[tuple[str, str]] = [
+    ("render-with", "{% render 'p_use' with L as x %}"),
+    ("render-for", "{% render 'p_use' for L as x %}"),
+    ("render-kw", "{% render 'p_use', x: L %}"),
+    ("include-with", "{% include 'p_use' with L as x %}"),
+    ("include-kw", "{% include 'p_default', x: L %}"),
+    ("call-args", "{% macro m2 a, b %}[{{ a }}{{ b }}]{% endmacro %}{% call m2 L, b: L %}"),
+    ("with", "{% with a: L %}{{ a }}{% endwith %}"),
+    ("cycle", "{% cycle L, 'z' %}"),
+    ("case", "{% case L %}{% when 'hello' %}hi{% when L %}same{% else %}o{% endcase %}"),
+    ("echo", "{% echo L %}"),
+    ("output", "{{ L }}{{ L.size }}{{ L | upcase }}"),
+    ("assign", "{% assign z2 = L %}{{ z2 }}"),
+    ("capture", "{% capture c2 %}[{{ L }}]{% endcapture %}{{ c2 }}"),
+    ("filter-arg", "{{ s | append: L }}{{ arr | join: L }}"),
+    ("lambda-map", "{{ objs | map: i => L | join: ',' }}"),
+    ("lambda-body", "{{ strs | where: i => i == L | size }}"),
+    ("template-string", "{{ \"x${L}y\" }}"),
+    ("translate-tag", "{% translate who: L %}Hi %(who)s{% endtranslate %}"),
+    ("ternary", "{{ L if t else 'b' }}{{ 'a' if L == 'hello' else 'c' }}"),
+    ("if", "{% if L == 'hello' or L contains 'a' %}y{% else %}n{% endif %}"),
+    ("index-by-local", "{{ h[L] | default: '-' }}"),
+]
+# wrappers: (kind, text, isolates?)  isolating wrappers may only go *outside* the binder
+WRAPPERS: list[tuple[str, str, bool]] = [
+    ("w-if", "{% if t %}{BODY}{% endif %}", False),
+    ("w-for", "{% for q in arr limit: 2 %}{BODY}{% endfor %}", False),
+    ("w-with", "{% with w: 1 %}{BODY}{% endwith %}", False),
+    ("w-unless-else", "{% unless t %}no{% else %}{BODY}{% endunless %}", False),
+    ("w-case", "{% case n %}{% when 3 %}{BODY}{% endcase %}", False),
+    ("w-macro", "{% macro wm %}{BODY}{% endmacro %}{% call wm %}", True),
+    ("w-render", "{% render '{PARTIAL}' %}", True),
+    ("w-include", "{% include '{PARTIAL}' %}", False),
+]
+
+
+def _partial(body: str, partials: dict[str, str]) -> str:
+    import hashlib
+
+    name = "pl_" + hashlib.blake2b(body.encode(), digest_size=5).hexdigest()
+    partials[name] = body
+    return name
+
+
+def _wrap(tpl: str, body: str, partials: dict[str, str]) -> str:
+    if "{PARTIAL}" in tpl:
+        return tpl.replace("{PARTIAL}", _partial(body, partials))
+    return tpl.replace("{BODY}", body)
+
+
+def _no_include(text: str, partials: dict[str, str]) -> bool:
+    """include is disabled inside render; true if text (transitively) has no include."""
+    if "{% include" in text:
+        return False
+    for name, body in partials.items():
+        if name.startswith("pl_") and name in text and not _no_include(body, partials):
+            return False
+    return True
+
+
+def locals_programs(partials: dict[str, str]) -> list[tuple[str, str]]:
+    """[(kind, source)]; dynamic partials are added to *partials*."""
+    out: list[tuple[str, str]] = []
+    inner_w = [w for w in WRAPPERS if not w[2] and "{PARTIAL}" not in w[1]]
+    idx = 0
+    for binders, uses in ((LOCAL_BINDERS, LOCAL_USES), (SCALAR_BINDERS, SCALAR_USES)):
+        for bk, btpl in binders:
+            for uk, use in uses:
+                idx += 1
+                isolating = "{% render '{PARTIAL}'" in btpl or "{% macro" in btpl
+                if isolating and "{% include" in use:
+                    continue  # include is disabled inside a rendered partial / macro
+                if "tablerow" in btpl and "{% tablerow" in use:
+                    continue
+                variants: list[tuple[str, list, list]] = [("d0", [], [])]
+                # two rotating nesting configurations per (binder, use): depth 1 and 2
+                o1 = WRAPPERS[idx % len(WRAPPERS)]
+                i1 = inner_w[idx % len(inner_w)]
+                o2 = WRAPPERS[(idx // 3) % len(WRAPPERS)]
+                variants.append(("d1-out", [o1], []) if idx % 2 else ("d1-in", [], [i1]))
+                variants.append(
+                    [("d2-out-in", [o1], [i1]), ("d2-out-out", [o1, o2], []),
+                     ("d2-in-in", [], [i1, inner_w[(idx + 1) % len(inner_w)]])][idx % 3]
+                )
+                for vk, outer, inner in variants:
+                    body = use
+                    for _, wt, _iso in inner:
+                        body = _wrap(wt, body, partials)
+                    text = _wrap(btpl, body, partials)
+                    ok = True
+                    for _, wt, _iso in outer:
+                        if _iso and not _no_include(text, partials):
+                            ok = False
+                            break
+                        text = _wrap(wt, text, partials)
+                    if ok:
+                        out.append((f"local:{bk}/{uk}/{vk}", text))
     return out
